@@ -28,7 +28,7 @@ fn stack_params(action: &'static str, args: Vec<f64>) -> ParsedParameters {
 }
 
 fn idx() -> usize {
-    let a: u8 = kani::any();
+    let a: u8 = nd();
     kani::assume(a >= 1 && a <= 4);
     a as usize
 }
@@ -54,14 +54,14 @@ fn same_state(s1: &Vec<Vec<f64>>, o1: &[Coor4D; N], s2: &Vec<Vec<f64>>, o2: &[Co
 }
 
 fn dispatch_case(action: &'static str, fwd: bool) {
-    let vals: [[f64; N]; D] = kani::any();
+    let vals: [[f64; N]; D] = nd();
     let ops0 = [any_c4(), any_c4()];
     let (mut s1, mut o1) = (mk_stack2(&vals), ops0);
     let (mut s2, mut o2) = (mk_stack2(&vals), ops0);
     let a = idx();
     let b = idx();
     let m: i64 = 2;
-    let n: i8 = kani::any();
+    let n: i8 = nd();
     kani::assume((n as i64) > -m && (n as i64) < m);
     let n = n as i64;
     let (r1, r2);
@@ -232,12 +232,12 @@ fn c12_dispatch_swap_inv() {
 // ---- panic-freedom / count honesty of the dispatch layer alone (no oracle call in the same
 // query): every action, both directions, from depth 2; count is 0 or the number of operands.
 fn nopanic_case(action: &'static str, fwd: bool) {
-    let vals: [[f64; N]; D] = kani::any();
+    let vals: [[f64; N]; D] = nd();
     let mut ops = [any_c4(), any_c4()];
     let mut stack = mk_stack2(&vals);
     let a = idx();
     let b = idx();
-    let n: i8 = kani::any();
+    let n: i8 = nd();
     kani::assume(n > -2 && n < 2);
     let p = match action {
         "push" | "pop" | "flip" => stack_params(action, vec![a as f64, b as f64]),
